@@ -50,6 +50,8 @@ def tasks(tier):
         t.append(dict(module="scal", fn="h_dispatch", shape=dict(W0=3, kind=kind), opts=o(8, 24)))
         t.append(dict(module="scal", fn="h_dispatch", shape=dict(W0=3, kind=kind, cons=[]), opts=o(8, 24)))
     t.append(dict(module="scal", fn="h_dispatch", shape=dict(W0=3, kind="KKT", unwind=U), opts=o(8, 24, sqrt_model="lazy")))
+    for kind, pol in (("GradJac", "cached"), ("Nominal", "memo")):
+        t.append(dict(module="scal", fn="h_dispatch", shape=dict(W0=3, kind=kind, policy=pol, reuse=True, fmt="coo"), opts=o(8, 24)))
     # single working precision: the scaling is still computed from the user's double-precision data
     for kind in ("GradJac", "Nominal"):
         t.append(dict(module="scal", fn="h_dispatch", shape=dict(W0=3, kind=kind, single=True), opts=o(8, 24, fp32_round=True)))
